@@ -91,3 +91,64 @@ def ast_calls_of_attr(prog, attr_name):
     # de-duplicate Attribute nodes that are the func of a recorded Call
     funcs = {id(c.func) for _, _, c in out if isinstance(c, ast.Call)}
     return [(m, s, c) for m, s, c in out if not (isinstance(c, ast.Attribute) and id(c) in funcs)]
+
+
+# ----------------------------------------------------------------------------- comprehension pairing
+POS = ("k", "@pos")
+
+
+def elementwise(c, dicts=(), level=None):
+    """Symbolic element of a single-generator comprehension: the element expression with every bound variable replaced by
+    the canonical element it denotes at one iteration -- ("key", D) for the key of dict D at the current position,
+    ("sub", D, ("key", D)) for its value, ("sub", S, POS) for the element of any other iterable S, POS for an index.
+    Two bound variables that are paired by position across *different* dicts therefore get different key symbols, while
+    by-key access (D2[key]) reuses the key symbol. Returns (element, [iterated containers]) or None when the
+    comprehension has filters / several generators (nothing is assumed about those)."""
+    from ..vgraph import mapnodes
+
+    if not (isinstance(c, tuple) and c and c[0] == "comp"):
+        return None
+    gens, d = c[3], c[4]
+    if len(gens) != 1 or gens[0][1]:
+        return None
+    domains = []
+
+    def call_of(it, name):
+        return isinstance(it, tuple) and it and it[0] == "call" and it[1] == ("global", name)
+
+    def meth_of(it, name):
+        return (isinstance(it, tuple) and it and it[0] == "call" and isinstance(it[1], tuple) and it[1][0] == "attr" and it[1][2] == name
+                and not it[2] and not it[3])
+
+    def slots(it):
+        """list of element terms bound by one iteration of `it` (flattened target order)"""
+        if it in dicts:
+            domains.append(it)
+            return [("key", it)]
+        for nm in ("keys", "values", "items"):
+            if meth_of(it, nm) and it[1][1] in dicts:
+                D = it[1][1]
+                domains.append(D)
+                k = ("key", D)
+                return {"keys": [k], "values": [("sub", D, k)], "items": [k, ("sub", D, k)]}[nm]
+        if call_of(it, "zip") and not it[3]:
+            out = []
+            for a in it[2]:
+                out.extend(slots(a))
+            return out
+        if call_of(it, "enumerate") and len(it[2]) == 1 and not it[3]:
+            return [POS] + slots(it[2][0])
+        if call_of(it, "range") and len(it[2]) == 1 and call_of(it[2][0], "len") and len(it[2][0][2]) == 1:
+            domains.append(it[2][0][2][0])
+            return [POS]
+        domains.append(it)
+        return [("sub", it, POS)]
+
+    sl = slots(gens[0][0])
+
+    def f(n):
+        if n and n[0] == "bound" and n[1] == d:
+            return sl[n[2]] if n[2] < len(sl) else ("k", "@unbound")
+        return n
+
+    return mapnodes(c[2], f), domains
